@@ -115,6 +115,13 @@ def gen_random_script(rng, prop, long=False):
             if st["a"] == "frame":
                 st["mW"] = False
                 st["mPre"] = rng.choice([0, 1])
+    if not faults:
+        # failures that must not change when recordings start and end: the write of the current frame, the stop;
+        # and now and then a failed pre-trigger write (which aborts that recording: the clauses are re-armed after it)
+        for st in steps:
+            if st["a"] == "frame" and rng.random() < 0.06:
+                k = rng.choice(["mW", "mW", "mStop", "mPre"])
+                st[k] = rng.choice([1, 2]) if k == "mPre" else False
     if faults:
         for st in steps:
             if st["a"] == "frame" and rng.random() < 0.12:
@@ -242,6 +249,11 @@ def run(ctx, only_scripts=None):
     if not d["ok"]:
         raise vlib.Infra("design model violates a monitor/invariant (model drift or spec bug; a verdict needs the "
                          "real code):\n" + vlib.tail_err(d["out"], 80))
+    if prop == "C04":
+        w = ctx.tlc("window", "Window", mkcfg(constants=dict(Day=12 if tier == "quick" else 48),
+                                              invariants=["CodeIsHalfOpen", "ObserverSound"]), timeout=600, heap="2g")
+        if not w["ok"]:
+            raise vlib.Infra("Window.tla: the code-shaped Active() and the declarative window disagree:\n" + vlib.tail_err(w["out"]))
     # ---------------------------------------------------------------- 2. scripts -> real code
     if only_scripts is None:
         scripts, stats = build_scripts(ctx, prop, tier)
